@@ -62,7 +62,12 @@ Rss == /\ IsEvent("rss")
        /\ dead' = TRUE
        /\ UNCHANGED <<block, limit, buf, pile>>
 
-Next == New \/ Call \/ WRead \/ WRet \/ Rss
+(* what the process was asked to do happened: the archive was written; every member arrived with its size; testzip found nothing *)
+Outcome == /\ IsEvent("outcome")
+           /\ Ev.ok
+           /\ UNCHANGED <<block, limit, buf, pile, dead>>
+
+Next == New \/ Call \/ WRead \/ WRet \/ Rss \/ Outcome
 Spec == Init /\ [][Next]_vars
 
 Done == /\ (l = Len(Traces[tid]) + 1) => PrintT(<<"ACC", tid>>)
